@@ -221,90 +221,96 @@ def check_param_records_not_edited(ctx, fi, params,
     records -- reached by iterating / indexing the parameter -- are not
     stored into, deleted from or given a mutating method.  `dict(rec)` /
     `list(x)` / `.copy()` copy one level only: the copy's own keys may be
-    set, but what hangs below them is still the caller's."""
+    set, but what hangs below them is still the caller's; `deepcopy` gives
+    a record of the function's own.  Judged per statement on the reaching
+    definitions of the name that is edited."""
+    from ..core.cfg import cfg_of
+    from ..core.defuse import rd_of
     params = [p for p in params if p in fi.params]
     if not params:
         return 0
-    # alias classes: 'deep' = the caller's object, 'shallow' = a one-level
-    # copy of one
-    cls = {p: 'deep' for p in params}
-    grew = True
-    while grew:
-        grew = False
-        for st in ast.walk(fi.node):
-            new = None
-            tg = None
-            if isinstance(st, ast.For):
-                tg, src = st.target, st.iter
-            elif isinstance(st, ast.Assign) and len(st.targets) == 1:
-                tg, src = st.targets[0], st.value
-            else:
-                continue
-            # what does src denote?
-            kind = None
-            e = src
-            wrap = None
-            if isinstance(e, ast.Call) and isinstance(e.func, ast.Name) \
-                    and e.func.id in ('dict', 'list') and len(e.args) == 1:
-                wrap, e = 'shallow', e.args[0]
-            elif isinstance(e, ast.Call) and isinstance(
-                    e.func, ast.Attribute) and e.func.attr == 'copy' \
-                    and not e.args and not (isinstance(
-                        e.func.value, ast.Name)
-                        and e.func.value.id == 'copy'):
-                wrap, e = 'shallow', e.func.value
-            elif isinstance(e, ast.Call) and isinstance(
-                    e.func, ast.Name) and e.func.id in (
-                        'enumerate', 'reversed', 'sorted') and e.args:
-                e = e.args[0]
-            base = e
-            while isinstance(base, ast.Subscript):
-                base = base.value
-            if isinstance(base, ast.Call) and isinstance(
-                    base.func, ast.Attribute) and base.func.attr in (
-                        'values', 'items') and isinstance(
-                            base.func.value, ast.Name):
-                base = base.func.value
-            if isinstance(base, ast.Name) and base.id in cls:
-                kind = wrap or ('deep' if cls[base.id] in ('deep',
-                                                           'shallow')
-                                else None)
-                # an element of a shallow copy is the caller's again
-                if wrap is None and cls[base.id] == 'shallow' and (
-                        isinstance(st, ast.For) or e is not base):
-                    kind = 'deep'
-                elif wrap is None and cls[base.id] == 'shallow':
-                    kind = 'shallow'
-            if kind is None:
-                continue
-            if isinstance(tg, ast.Name):
-                names = [tg.id]
-            elif isinstance(tg, (ast.Tuple, ast.List)) and all(
-                    isinstance(x, (ast.Name, ast.Tuple, ast.List))
-                    for x in tg.elts):
-                names = [x.id for x in ast.walk(tg)
-                         if isinstance(x, ast.Name)]
-            else:
-                continue        # a store into something: not a binding
-            for nm in names:
-                if nm in params:
-                    # re-binding the parameter name itself to a copy
-                    if cls.get(nm) != kind and kind == 'shallow':
-                        pass
-                    continue
-                if cls.get(nm) != kind and not (cls.get(nm) == 'deep'):
-                    cls[nm] = kind
-                    grew = True
+    cfg = cfg_of(fi)
+    rd = rd_of(fi)
+    ORDER = {'fresh': 0, 'shallow': 1, 'deep': 2}
+    memo = dict()
+
+    def join(a, b):
+        return a if ORDER[a] >= ORDER[b] else b
+
+    def class_of_def(d, depth):
+        if d.id in memo:
+            return memo[d.id]
+        memo[d.id] = 'fresh'           # recursion guard
+        if d.kind == 'param':
+            r = 'deep' if d.name in params else 'fresh'
+        elif d.kind == 'for':
+            c = class_of_expr(d.value, d.node, depth + 1)
+            r = 'deep' if c in ('deep', 'shallow') else 'fresh'
+        elif d.kind in ('assign', 'walrus') and d.value is not None:
+            r = class_of_expr(d.value, d.node, depth + 1)
+            if d.path and r == 'shallow':
+                r = 'deep'
+        else:
+            r = 'fresh'
+        memo[d.id] = r
+        return r
+
+    def class_of_name(name, nid, depth):
+        out = 'fresh'
+        for d in rd.reaching(name, nid):
+            out = join(out, class_of_def(d, depth))
+        return out
+
+    def class_of_expr(e, nid, depth):
+        if depth > 12 or e is None:
+            return 'fresh'
+        if isinstance(e, ast.Name):
+            return class_of_name(e.id, nid, depth)
+        if isinstance(e, ast.Call):
+            f = e.func
+            nm = f.id if isinstance(f, ast.Name) else getattr(
+                f, 'attr', None)
+            if nm == 'deepcopy':
+                return 'fresh'
+            if nm in ('dict', 'list', 'tuple', 'sorted') and len(
+                    e.args) == 1 and isinstance(f, ast.Name):
+                c = class_of_expr(e.args[0], nid, depth + 1)
+                return 'shallow' if c in ('deep', 'shallow') else 'fresh'
+            if nm == 'copy' and isinstance(f, ast.Attribute):
+                if isinstance(f.value, ast.Name) and f.value.id == 'copy' \
+                        and e.args:
+                    c = class_of_expr(e.args[0], nid, depth + 1)
+                else:
+                    c = class_of_expr(f.value, nid, depth + 1)
+                return 'shallow' if c in ('deep', 'shallow') else 'fresh'
+            if nm in ('enumerate', 'reversed', 'zip') and e.args:
+                out = 'fresh'
+                for a in e.args:
+                    out = join(out, class_of_expr(a, nid, depth + 1))
+                return out
+            if nm in ('values', 'items', 'get') and isinstance(
+                    f, ast.Attribute):
+                c = class_of_expr(f.value, nid, depth + 1)
+                return 'deep' if c in ('deep', 'shallow') else 'fresh'
+            return 'fresh'
+        if isinstance(e, ast.Subscript):
+            c = class_of_expr(e.value, nid, depth + 1)
+            return 'deep' if c in ('deep', 'shallow') else 'fresh'
+        return 'fresh'
 
     def depth_and_root(e):
         d = 0
         while isinstance(e, ast.Subscript):
             d += 1
             e = e.value
-        return d, (e.id if isinstance(e, ast.Name) else None)
-    n = 0
+        return d, (e if isinstance(e, ast.Name) else None)
     bad = []
-    for st in ast.walk(fi.node):
+    for node in cfg.nodes:
+        if node.id not in rd.live or node.ast is None or node.kind not in (
+                'stmt',):
+            continue
+        st = node.ast
+        cands = []
         tgs = []
         if isinstance(st, ast.Assign):
             tgs = st.targets
@@ -315,13 +321,20 @@ def check_param_records_not_edited(ctx, fi, params,
         for tg in tgs:
             if isinstance(tg, ast.Subscript):
                 d, r = depth_and_root(tg)
-                if r in cls and (cls[r] == 'deep' or d >= 2):
-                    bad.append(st)
-        if isinstance(st, ast.Call) and isinstance(
-                st.func, ast.Attribute) and st.func.attr in MUTATORS:
-            d, r = depth_and_root(st.func.value)
-            if r in cls and (cls[r] == 'deep' or d >= 1):
+                if r is not None:
+                    cands.append((d, r))
+        for c in ast.walk(st):
+            if isinstance(c, ast.Call) and isinstance(
+                    c.func, ast.Attribute) and c.func.attr in MUTATORS:
+                d, r = depth_and_root(c.func.value)
+                if r is not None:
+                    cands.append((d + 1, r))
+        for (d, r) in cands:
+            c = class_of_name(r.id, node.id, 0)
+            if c == 'deep' or (c == 'shallow' and d >= 2):
                 bad.append(st)
+                break
+    n = 0
     for p in params:
         n += 1
         ctx.touch(fi)
